@@ -1211,6 +1211,29 @@ func (g *gen) bursts() Scenario {
 	return Scenario{Gen: "concurrent-initiations", Steps: st}
 }
 
+// A sender that crafts increasing timestamps and fires valid initiations back to back: after
+// the first is answered, the ones that follow inside 1/50 s must be dropped (one at a time, each
+// after the device has settled: no two of them race through different handshake workers).
+func (g *gen) rapidFire() Scenario {
+	p := g.peer()
+	var st []Step
+	if g.r.Intn(2) == 0 {
+		st = append(st, stepMsg(g.msg("init", p)), stepSleep(60))
+	}
+	first := g.msg("init", p)
+	st = append(st, stepMsg(first))
+	var burst []*MsgSpec
+	for i := 0; i < 2+g.r.Intn(4); i++ {
+		m := g.msg("init", p)
+		m.Src = 1 + g.r.Intn(4)
+		burst = append(burst, m)
+		st = append(st, stepMsg(m))
+	}
+	last := burst[len(burst)-1]
+	st = append(st, stepSleep(60), stepMsg(replayOf(g, last, 3)), stepMsg(g.msg("init", p)), stepMsg(replayOf(g, burst[0], 4)))
+	return Scenario{Gen: "rapid-fire", Steps: st}
+}
+
 func f7Scenario(aligned bool) Scenario {
 	st := []Step{stepTun(keyA, 80), {Op: "restart"}, stepTun(keyA, 80)}
 	if aligned {
@@ -1280,6 +1303,7 @@ func generate(seed int64, n int, tier string, f7rounds int) []Scenario {
 	}
 	fixed := []func(*gen) Scenario{(*gen).lengths, (*gen).substitutions, (*gen).timestamps, (*gen).flood, (*gen).superseded, (*gen).strangers,
 		(*gen).underLoad, (*gen).underLoad, (*gen).restartReplay, (*gen).restartReplay,
+		(*gen).rapidFire, (*gen).rapidFire, (*gen).rapidFire, (*gen).rapidFire,
 		(*gen).sessionIndex, (*gen).sessionIndex, (*gen).sessionIndex, (*gen).bursts, (*gen).bursts, (*gen).bursts, (*gen).bursts}
 	for _, f := range fixed {
 		scs = append(scs, f(mk()))
@@ -1308,6 +1332,8 @@ func generate(seed int64, n int, tier string, f7rounds int) []Scenario {
 			scs = append(scs, mk().restartReplay())
 		case x < 93:
 			scs = append(scs, mk().sessionIndex())
+		case x < 96:
+			scs = append(scs, mk().rapidFire())
 		default:
 			scs = append(scs, mk().mixture())
 		}
